@@ -291,6 +291,19 @@ class Fn:
         r = self.reach([0], avoid_edges=cond_edges, cleanup=cleanup)
         return not (r & set(target_blocks))
 
+    def natural_loop(self, header, cleanup=False):
+        """Blocks of the natural loop(s) with the given header (back edges t->header with header dom t)."""
+        pm = self.preds_map(cleanup)
+        body = {header}
+        work = [t for t in pm.get(header, []) if self.dominates(header, t, cleanup)]
+        while work:
+            b = work.pop()
+            if b in body:
+                continue
+            body.add(b)
+            work.extend(pm.get(b, []))
+        return body
+
     def on_cycle(self, b, cleanup=False):
         for d in self.succs(b, cleanup):
             if b in self.reach([d], cleanup=cleanup):
@@ -527,6 +540,30 @@ class Facts:
                         if a["k"] == "const" and "fn" in a:
                             out.append(("fnref", a["fn"], b))
             cg[p] = out
+        # thread-local / static initialisers run where the static is first touched
+        inits = defaultdict(list)
+        for sp in self.statics:
+            for q in self.fns:
+                if q.startswith(sp + "::"):
+                    inits[sp].append(q)
+        for p, fn in self.fns.items():
+            seen_st = set()
+            for b, blk in enumerate(fn.blocks):
+                ops = []
+                for s in blk["stmts"]:
+                    if s["k"] == "assign":
+                        if s["rv"]["k"] == "tls":
+                            ops.append({"static": s["rv"]["static"]})
+                        ops += _operands_of_rv(s["rv"])
+                t = blk["term"]
+                if t["k"] == "call":
+                    ops += t["args"]
+                for o in ops:
+                    st = o.get("static")
+                    if st and st in inits and (st, b) not in seen_st and not p.startswith(st + "::"):
+                        seen_st.add((st, b))
+                        for q in inits[st]:
+                            cg[p].append(("tls-init", q, b))
         self._cg = cg
         return cg
 
@@ -699,9 +736,40 @@ class Prov:
                 sub = path
             rv = s["rv"]
             out |= self._of_rvalue(fn, b, rv, sub, depth, _seen)
+        # `a && b` lowers to: switch(a) [false: L = false; true: L = b].  L true implies a true, so the
+        # origins of `a` are origins of L with the same polarity (needed to see through helper predicates).
+        if local < len(fn.locals) and fn.locals[local] == "bool" and not path:
+            out |= self._and_operands(fn, local, depth, _seen)
         if not out:
             out.add(Origin("unknown", "_%d" % local, path))
         self._memo[key] = out
+        return out
+
+    def _and_operands(self, fn, local, depth, _seen):
+        defs = [d for d in fn.defs(local) if d[1] != "term" and d[2]["k"] == "assign" and not d[2]["lhs"]["p"]]
+        if len(defs) < 2 or len(defs) != len(fn.defs(local)):
+            return set()
+        falses = [d for d in defs if d[2]["rv"]["k"] == "use" and d[2]["rv"]["op"]["k"] == "const" and d[2]["rv"]["op"].get("v") == 0]
+        others = [d for d in defs if d not in falses]
+        if not falses or not others:
+            return set()
+        other_blocks = {d[0] for d in others}
+        pm = fn.preds_map()
+        out = set()
+        for (bf, _, _) in falses:
+            for p in pm.get(bf, []):
+                t = fn.term(p)
+                if t["k"] != "switch" or t["discr_ty"] != "bool":
+                    continue
+                false_e = {(a, d) for a, d, _ in fn.switch_edges(p, False)}
+                true_e = {(a, d) for a, d, _ in fn.switch_edges(p, True)}
+                if (p, bf) not in false_e:
+                    continue
+                # the true edge must lead to the other definition(s) before anything else defines L
+                ok = any(other_blocks & fn.reach([(a, d)], avoid_blocks=[bf]) for a, d in true_e)
+                if ok and t["discr"]["k"] in ("copy", "move"):
+                    for o in self._rec(fn, t["discr"], (), depth, _seen):
+                        out.add(Origin(o.kind, o.key, o.path, o.via + (("and",),)))
         return out
 
     def _rec(self, fn, op, path, depth, _seen):
@@ -1050,3 +1118,22 @@ def result_switches(fn, call_block, ty_part=None, proj=None):
             return False
         return ty_part is None or ty_part in info["ty"]
     return first_switches(fn, t["target"], pred)
+
+
+def const_value(fn, op, depth=6):
+    """Integer value of an operand when it is a constant, possibly through copies and int-to-int casts."""
+    if depth <= 0:
+        return None
+    if op["k"] == "const":
+        return op.get("v")
+    if op["k"] in ("copy", "move") and not op["p"]:
+        sd = fn.single_def(op["l"])
+        if sd is None or sd[1] == "term" or sd[2]["k"] != "assign":
+            return None
+        rv = sd[2]["rv"]
+        if rv["k"] == "use":
+            return const_value(fn, rv["op"], depth - 1)
+        if rv["k"] == "cast" and rv["cast"].startswith("IntToInt"):
+            v = const_value(fn, rv["op"], depth - 1)
+            return v if v is not None and v >= 0 else None
+    return None
